@@ -416,8 +416,9 @@ def run_tags(sim, params):
     kept = [o for o in which if kept_after_startup(o, plan[o]["startup"])]
     # an UnsupportedTargetError reaches connect() when the single rdwr target is unsupported, or listen is
     tg = extra["rdwr"].get("targets", ["106A", "106B", "212F"])
+    subset_of = None
     if plan.get("rdwr", {}).get("startup") == "subset":
-        tg = tg[:1]
+        subset_of, tg = list(tg), tg[:1]
     single_unsupported = "rdwr" in kept and len(tg) == 1 and (tg[0] in ("106X", "848A") or (fault == "unsupported_A" and tg[0] == "106A"))
     ctx = {"t_start": state["t_start"], "T_term": state["T_term"], "t_ret": state["t_ret"], "bound": cycle_bound(kept, extra),
            "discovery": discovery, "fatal": list(fatal), "fatal_certain": False}
@@ -428,6 +429,15 @@ def run_tags(sim, params):
     ctx["fatal_certain"] = bool(fatal)
     kind, ret = out["outcome"]
     vs = judge_connect(hist, which, plan, out["outcome"], ctx, desc)
+    if subset_of and "rdwr" in kept and "llcp" not in kept and tg and isinstance(tg[0], str) and tg[0][-1] in "ABF":
+        # (the llcp option polls for peers with the same driver functions)
+        # on-startup returned a new, shorter target list: only what it returned may be polled for
+        fn_ok = "sense_tt" + tg[0][-1].lower()
+        other = [c for c in discovery if c[1].startswith("sense_tt") and c[1] != fn_ok]
+        sim.probe("startup.subset_judged")
+        if other:
+            vs.append(Violation("startup-targets", "rdwr", "on-startup returned the target list %r (of %r) but the driver was asked "
+                                "to %s; history=%s; %r" % (tg, subset_of, other[0][1], short(hist), desc)))
     # ---- reach ----------------------------------------------------------------------------------------------------
     oc = "raised" if kind == "raised" else ("none" if ret is None else "false" if ret is False else "true" if ret is True
                                             else "object" if not isinstance(ret, (int, str)) else "value")
